@@ -148,32 +148,62 @@ def urlH : Handler := fun inp impl => do
 
 /-! ### c07.body -/
 
+/-- `[{"code": c, "hdr": [{"k":…,"v":[…]}]}]` -/
+def interims (j : Json) (k : String) (kvForm : Bool) : Except String (List (Int × List (String × String))) := do
+  let a ← arr j k
+  a.toList.mapM fun e => do
+    let c ← int e "code"
+    let h ← if kvForm then kvPairs e "hdr" else (do
+      let ps ← pairs e "hdr"
+      pure (ps.map fun kv => (canonKey kv.1, kv.2)))
+    pure (c, h)
+
+def interimsJson (l : List (Int × List (String × String))) : Json :=
+  Json.arr (l.map fun (c, h) => Json.mkObj [("code", c), ("hdr", groupJson h)]).toArray
+
 def bodyH : Handler := fun inp impl => do
   let method ← str inp "method"
   let rstatus ← int inp "rstatus"
   let reqlen ← int inp "reqlen"
   let chunks ← arr inp "chunks"
   let rchunked ← bool inp "rchunked"
+  let announced ← interims inp "interim" false
+  let gz := (inp.getObjValAs? Bool "gzip").toOption.getD false
+  let expect := (inp.getObjValAs? Bool "expect").toOption.getD false
   let g (k : String) : Json := (impl.getObjVal? k).toOption.getD Json.null
   if isPanic impl then
     return ({ model := Json.null, agree := false, spec := false, tag := "panic" } : Verdict).toJson
   let repHdr ← kvPairs impl "rep_hdr"
   let gotHdr ← kvPairs impl "got_hdr"
-  -- model: the frame — the request reaches the upstream once with the client's method and body, the reply
-  -- reaches the client with the upstream's status, end-to-end headers and body
+  let sentInterim ← interims impl "sent_interim" true
+  let gotInterim ← interims impl "got_interim" true
+  -- model: the frame — the request reaches the upstream once with the client's method and body; the handler
+  -- announces the upstream's informational responses and then its final status through `responseWriter`, whose
+  -- wrapped writer (net/http's) shows the client `clientView` of the calls it received; headers and body follow
+  let calls := (RW.run (announced.map (·.1) ++ [rstatus])).sentHeaders
+  let (mInterim, mFinal) := clientView calls
+  let mInterimFull := (announced.zip mInterim).map fun (a, c) => (c, a.2)
   let m := Json.mkObj [("hits", (1 : Int)), ("up_method", method), ("up_len", g "sent_len"), ("up_sha", g "sent_sha"),
-                       ("status", rstatus), ("got_len", g "rep_len"), ("got_sha", g "rep_sha"), ("got_hdr", groupJson repHdr)]
+                       ("status", mFinal), ("interim", interimsJson mInterimFull),
+                       ("got_len", g "rep_len"), ("got_sha", g "rep_sha"), ("got_hdr", groupJson repHdr)]
   let ci := Json.mkObj [("hits", g "hits"), ("up_method", g "up_method"), ("up_len", g "up_len"), ("up_sha", g "up_sha"),
-                        ("status", g "status"), ("got_len", g "got_len"), ("got_sha", g "got_sha"), ("got_hdr", groupJson gotHdr)]
+                        ("status", g "status"), ("interim", interimsJson gotInterim),
+                        ("got_len", g "got_len"), ("got_sha", g "got_sha"), ("got_hdr", groupJson gotHdr)]
+  -- the sentences: the upstream got the client's method and body; the client got the upstream's status, end-to-end
+  -- headers and body bytes — and the informational responses the upstream sent, in order, each with its headers
+  let sameInterim := sentInterim.length == gotInterim.length &&
+    (sentInterim.zip gotInterim).all fun (a, b) => a.1 == b.1 && sameMultiset a.2 b.2
   let spec := g "hits" == (1 : Int) && g "up_method" == Json.str method &&
     g "up_len" == g "sent_len" && g "up_sha" == g "sent_sha" && g "sent_len" == Json.num reqlen &&
     g "status" == Json.num rstatus && g "got_len" == g "rep_len" && g "got_sha" == g "rep_sha" &&
-    sameMultiset repHdr gotHdr
+    sameMultiset repHdr gotHdr && sameInterim
   let big := reqlen > 65536 || (impl.getObjValAs? Int "rep_len").toOption.getD 0 > 65536
   let tag := (if chunks.size > 0 then "req-chunked" else if reqlen > 0 then "req-cl" else "req-empty") ++
-             (if rchunked then "/rep-chunked" else "/rep-cl") ++ (if big then "/big" else "")
+             (if rchunked then "/rep-chunked" else "/rep-cl") ++ (if big then "/big" else "") ++
+             (if announced.isEmpty then "" else "/1xx") ++ (if expect then "/expect" else "") ++
+             (if gz then (if g "decoded" == Json.bool true then "/gz-encoded" else "/gz") else "")
   return ({ model := m, agree := m == ci, spec := spec,
-            nontrivial := reqlen > 0 || (impl.getObjValAs? Int "rep_len").toOption.getD 0 > 0, tag := tag } : Verdict).toJson
+            nontrivial := reqlen > 0 || (impl.getObjValAs? Int "rep_len").toOption.getD 0 > 0 || !announced.isEmpty, tag := tag } : Verdict).toJson
 
 /-! ### c07.noroute -/
 
